@@ -156,7 +156,11 @@ def run(ctx):
                               "brokerid": cps(v.brokerid or "")} for k, v in home.items()],
                     "file": {s: {o: cps(file0[s][o]) for o in OPTS} for s in ("srv1", "srv2")}})
         password = "S3cr3t-" + str(h)
-        for step in range(rnd.randrange(2, 6)):
+        nsteps = rnd.randrange(2, 6)
+        # the first histories are directed: every command as a writing dry run (h0) and as a plain dry run (h1) - a dry run
+        # stores nothing whatever the command, independent of where the random stream happens to go
+        directed = h in (0, 1)
+        for step in range(4 if directed else nsteps):
             srv = rnd.choice(["srv1", "srv1", "srv2"])
             cli = {}
             for o in OPTS:
@@ -179,6 +183,9 @@ def run(ctx):
             dry = rnd.random() < 0.2
             # (every command that takes the settings; acctinfo needs a user from somewhere)
             cmd = rnd.choice(["stmt", "stmt", "stmt", "stmtend", "prof", "acctinfo"])
+            if directed:
+                cmd = ["acctinfo", "stmt", "prof", "stmtend"][step]
+                write, dry = (h == 0), True
             if cmd == "acctinfo" and "user" not in cli:
                 cli["user"] = rnd.choice(POOL["user"])
             if cmd == "prof":
